@@ -447,8 +447,8 @@ Lemma na_run evs : forall s, (forall i t, ~ In (EDone i (OMw true t)) evs) ->
 Proof using MW.
   induction evs as [|e r IH]; intros s NA; [reflexivity|].
   rewrite run_cons, flat_cons, invocs_app, na_step, IH; [reflexivity| |].
-  - intros i t H. apply (NA i t). left. assumption.
   - intros i t H. apply (NA i t). right. assumption.
+  - intros i t H. apply (NA i t). left. assumption.
 Qed.
 End NoAllow.
 
